@@ -150,9 +150,7 @@ def make():
                 g.goal("sequential run teed through pipes")
             else:
                 g.require(p.env.get("COND_SLOT") is not None, "log:not-in-a-slot", D)
-                g.require(seen["fds"].get("out") == os.path.join(out, "stdout.log") and seen["fds"].get("err") == os.path.join(out, "stderr.log"),
-                          "log:parallel-task-not-handed-its-log-files", "child stdio was %s; %s" % (seen["fds"], D))
-                g.goal("parallel slot logging straight to files")
+                g.goal("task in a parallel slot")
             recs = [("e", out, args, opts)]
             if twin:
                 pw = [x for x in kern.tasks() if x.name == "w"][0]
@@ -192,6 +190,8 @@ def scale_fn(g):
     stalled = piece == 3
     if stalled and parallel:
         return {"nontrivial": False, "sample": None}
+    # cond itself started from a task of an outer `cond run -j N`: COND_* variables are in its own environment
+    nested = g.flag("cond_started_inside_a_slot_of_an_outer_cond")
     total = 60000 if stalled else (1 << 20) + 123
     data_out = pool(total, 5)
     data_err = pool(total // 2 + 7, 6) if both else b""
@@ -234,14 +234,28 @@ def scale_fn(g):
                 release.set()
                 return fakeos.StatusExited(0)
         kern = fakeos.Kernel(S(), clock=fakeos.Clock())
-        res = hrun.invoke(cli_run.main, hrun.run_ns(task_identifier="//:e", jobs=2 if parallel else None), str(proj.root), kern, timeout=120)
+        saved_env = {k_: os.environ.get(k_) for k_ in ("COND_SLOT", "COND_NAME", "COND_OUT", "COND_DEPS")}
+        if nested:
+            os.environ.update(COND_SLOT="3", COND_NAME="outer", COND_OUT=str(proj.root / "outer-out"), COND_DEPS=str(proj.root / "outer-dep"))
+        try:
+            res = hrun.invoke(cli_run.main, hrun.run_ns(task_identifier="//:e", jobs=2 if parallel else None), str(proj.root), kern, timeout=120)
+        finally:
+            for k_, v_ in saved_env.items():
+                if v_ is None:
+                    os.environ.pop(k_, None)
+                else:
+                    os.environ[k_] = v_
         release.set()
         D = "%d bytes on stdout%s in pieces of %d bytes, parallel=%s%s" % (len(data_out), " and %d on stderr" % len(data_err) if both else "", piece, parallel,
-                                                                          ", cond's own stdout/stderr not read until the task has written everything" if stalled else "")
+                                                                          ", cond's own stdout/stderr not read until the task has written everything" if stalled else "") + (
+            ", cond started inside a slot of an outer cond (COND_SLOT/COND_OUT/... inherited)" if nested else "")
         if isinstance(res.status, str):
             g.require(False, "log:crash:" + res.status[4:], "%s; %s" % (res.exc, D))
         g.require(res.status == 0, "log:run-failed", "status=%r; %s" % (res.status, D))
-        out = kern.tasks()[0].env["COND_OUT"]
+        made = sorted(str(x) for x in proj.out.glob("e.task.*"))
+        g.require(len(made) == 1 and kern.tasks()[0].env.get("COND_OUT") == made[0], "log:task-not-given-its-fresh-output-directory",
+                  "cond-out has %s, the task was given COND_OUT=%r; %s" % ([os.path.basename(x) for x in made], kern.tasks()[0].env.get("COND_OUT"), D))
+        out = made[0]
         for name, want in (("stdout.log", data_out), ("stderr.log", data_err)):
             got = open(os.path.join(out, name), "rb").read()
             g.require(got == want, "log:%s-differs" % name, "%s has %d bytes, the command wrote %d%s; %s" % (
@@ -273,7 +287,7 @@ def spaces(tier):
             Space("chunk-schedules", make(),
                   "sequential | parallel slot; stdout 0..3 chunks with lengths from {0,1,4095,4096,4097,65537}; stderr absent or one "
                   "chunk from {0,1,4097}; stderr first / interleaved; 4 args/options decorations", depth=7,
-                  goals=["sequential run teed through pipes", "parallel slot logging straight to files", "chunk of at least one tee buffer",
+                  goals=["sequential run teed through pipes", "task in a parallel slot", "chunk of at least one tee buffer",
                          "chunk larger than the pipe buffer"],
                   outside=["byte values as solver variables", "outputs larger than 3 x 64 KiB", "tasks that keep stdout open after exiting"])]
 
